@@ -3,7 +3,7 @@ import ast
 from fractions import Fraction as F
 from .. import alg
 from ..alg import Rat, C
-from ..model import AnalysisError
+from ..model import AnalysisError, stmt_text
 from ..symval import Evaluator, Tup, NONE, NoneV, CallV, _single_atom
 from ..symcheck import Oracle, check_equal, compare_values, show
 from ..rules import where, optnum_rule
@@ -92,6 +92,7 @@ def plane_rules(repo, rep, orc):
     got = ev.call_function(f, {f.params[0].name: sy('x'), f.params[1].name: sy('y')})
     check_equal(rep, 'R-FORMULA', 'R-FORMULA::geodepy/convert.py::rect2polar::r,theta', where(f, f.node), got, orc.call('r2p', x=sy('x'), y=sy('y')),
                 'r = sqrt(x^2 + y^2), theta = degrees(atan2(x, y)) wrapped to [0, 360): same argument order as polar2rect')
+    range_rule(repo, rep)
     f = repo.func('geodepy.survey', 'joins')
     rep.analysed(f)
     ev = Evaluator(repo)
@@ -140,6 +141,40 @@ def plane_rules(repo, rep, orc):
             rep.holds('R-GUARD', key, where(f, f.node), 'zenith angle %d raises' % val)
         else:
             rep.violated('R-GUARD', key, where(f, f.node), 'zenith angle %d is accepted' % val, expected='ValueError', actual=show(g, 2, 100))
+
+
+def range_rule(repo, rep):
+    """the bearing lies in [0, 360): half-open.  `t + 360` for a negative t (and `t % 360`) is below 360 in exact arithmetic only - for a
+    direction a hair west of north (|t| below half an ulp of 360, e.g. rect2polar(-1e-9, 1e7)) the sum rounds to 360.0 exactly.  The exact
+    model cannot see that (the test `t + 360 >= 360` under `t < 0` is dead there), so the closing test is demanded structurally: after the
+    wrap the same variable is compared with 360 (>=, ==) and brought back."""
+    f = repo.func('geodepy.convert', 'rect2polar')
+    key = 'R-RANGE::geodepy/convert.py::rect2polar::theta<360'
+    wraps = []
+    for n in ast.walk(f.node):
+        v = None
+        if isinstance(n, ast.Assign) and len(n.targets) == 1 and isinstance(n.targets[0], ast.Name):
+            e = n.value
+            if isinstance(e, ast.BinOp) and isinstance(e.op, ast.Add) and any(isinstance(c, ast.Constant) and c.value == 360 for c in (e.left, e.right)):
+                v = n.targets[0].id
+            if isinstance(e, ast.BinOp) and isinstance(e.op, ast.Mod) and isinstance(e.right, ast.Constant) and e.right.value == 360:
+                v = n.targets[0].id
+        if isinstance(n, ast.AugAssign) and isinstance(n.target, ast.Name) and isinstance(n.op, (ast.Add, ast.Mod)) and isinstance(n.value, ast.Constant) and n.value.value == 360:
+            v = n.target.id
+        if v is not None:
+            wraps.append((n, v))
+    if not wraps:
+        rep.undecided('R-RANGE', key, where(f, f.node), 'no `+ 360` / `% 360` wrap of the bearing found in rect2polar')
+        return
+    for n, v in wraps:
+        closing = [c for c in ast.walk(f.node) if isinstance(c, ast.Compare) and c.lineno >= n.lineno and len(c.ops) == 1 and isinstance(c.ops[0], (ast.GtE, ast.Eq))
+                   and isinstance(c.left, ast.Name) and c.left.id == v and isinstance(c.comparators[0], ast.Constant) and c.comparators[0].value == 360]
+        if closing:
+            rep.holds('R-RANGE', key, where(f, closing[0]), 'after the wrap `%s` the bearing is compared with 360 and brought back: the result stays in [0, 360) under rounding' % stmt_text(n)[:40])
+        else:
+            rep.violated('R-RANGE', key, where(f, n), 'the bearing is wrapped by `%s` and never compared with 360 afterwards: for a direction a hair west of north the sum rounds to 360.0 '
+                         '(rect2polar(-1e-9, 1e7) and joins(0, 0, -1e-9, 1e7) return 360.0), outside the half-open range [0, 360) of the property' % stmt_text(n)[:40],
+                         expected='if theta >= 360: theta = 0.0', actual='no closing test')
 
 
 def fvc_rules(repo, rep, orc):
